@@ -153,7 +153,11 @@ def h_general(eng, params):
         w.advance(5)
     st = w.begin_step('connect')
     csteps[c0.idx] = st
-    c0.connect_tr = scen.connect(w, c0, params['keepalive'], True, params['ver'])
+    extra = {}
+    if params.get('stray_will_args'):
+        # a will QoS / retain flag given without a will must not make the CONNECT malformed
+        extra = {'willQoS': eng.int('willQoS', 0, 2), 'willRetain': eng.bool('willRetain')}
+    c0.connect_tr = scen.connect(w, c0, params['keepalive'], True, params['ver'], **extra)
     c0.connect_step = st
     c0.connack_step = None
     flow.connack(0)
@@ -169,9 +173,9 @@ def h_general(eng, params):
         if kind == 'publish':
             flow.publish()
         elif kind == 'subscribe':
-            flow.subscribe('str')
+            flow.subscribe(eng.choose(('str', 'list', 'empty'), 'shape'))
         elif kind == 'unsubscribe':
-            flow.unsubscribe('str')
+            flow.unsubscribe(eng.choose(('str', 'empty'), 'shape'))
         elif kind == 'ACK':
             ak = eng.choose(('PUBACK', 'PUBREC', 'PUBCOMP', 'SUBACK', 'UNSUBACK', 'PINGRESP'), 'ack')
             if ak in ('PUBACK', 'PUBREC', 'PUBCOMP'):
@@ -219,7 +223,7 @@ def shards(tier):
         for ver in (31, 311):
             for first in GEN_STEPS:
                 out.append(('general', {'profile': profile, 'ver': ver, 'keepalive': 5 if ver == 31 else 0, 'k': 5 if T else 3, 'first': first,
-                                        'before': ver == 311}))
+                                        'before': ver == 311, 'stray_will_args': first in ('advance', 'disconnect')}))
     return out
 
 
